@@ -32,6 +32,7 @@ type Job struct {
 	Weight           float64 // share of the time budget
 	Note             string
 	CheckEveryReplay bool
+	Workers          int // 0 = all cores
 }
 
 // Known findings ------------------------------------------------------------
@@ -237,7 +238,7 @@ func (rp *Report) RunJobs(jobs []Job, budget time.Duration, accept func(f *wx.Fa
 			rem = 2 * time.Second
 		}
 		share := time.Duration(float64(rem) * w / remW)
-		cfg := wx.Config{MaxDepth: j.MaxDepth, MaxStates: j.MaxStates, Deadline: time.Now().Add(share), IsKnown: isKnown, StopOnViolation: true, CheckEveryReplay: j.CheckEveryReplay, Accept: accept}
+		cfg := wx.Config{MaxDepth: j.MaxDepth, MaxStates: j.MaxStates, Deadline: time.Now().Add(share), IsKnown: isKnown, StopOnViolation: true, CheckEveryReplay: j.CheckEveryReplay, Accept: accept, Workers: j.Workers}
 		if os.Getenv("VERIF_VERBOSE") != "" {
 			name := j.Sc.Name()
 			cfg.OnLevel = func(d int, st *wx.Stats) {
